@@ -10,6 +10,16 @@ sys.path.insert(0, ROOT)
 
 
 def main():
+    # scratch files of this run (the stand-ins' and the demonstration scripts' temporary directories) go below ONE directory
+    # that is removed at the end
+    import atexit
+    import shutil
+    import tempfile
+
+    scratch = tempfile.mkdtemp(prefix="verif-harness-")
+    os.environ["TMPDIR"] = scratch
+    tempfile.tempdir = scratch
+    atexit.register(shutil.rmtree, scratch, True)
     pid, tier, seed = sys.argv[1], sys.argv[2], int(sys.argv[3])
     raw = sys.stdin.read() if not sys.stdin.isatty() else ""
     extra = json.loads(raw) if raw.strip() else {}
